@@ -228,7 +228,14 @@ FltArith(op, a, b) ==
 Arith(op, l, r) ==
   IF op = "**" THEN
        IF IsInt(l) /\ IsInt(r) THEN
-            IF PowOK(l[2], r[2]) THEN I(IntPow(l[2], r[2])) ELSE SKIP
+            IF PowOK(l[2], r[2]) THEN I(IntPow(l[2], r[2]))
+            \* a negative exponent: integer arithmetic stays integer, so the real value (of magnitude below one
+            \* unless the base is 1 or -1) is cut to an integer; a zero base has no value to cut
+            ELSE IF r[2] < 0 /\ r[2] >= -20 /\ l[2] # 0
+                 THEN (IF l[2] = 1 THEN I(1)
+                       ELSE IF l[2] = -1 THEN I(IF (-r[2]) % 2 = 0 THEN 1 ELSE -1)
+                       ELSE I(0))
+            ELSE SKIP
        ELSE IF IsInt(r) /\ ExactNum(l) /\ Den(l) = 1 /\ PowOK(Num(l), r[2]) THEN F(IntPow(Num(l), r[2]), 1)
        ELSE IF IsFlt(r) /\ Den(r) = 1 /\ ExactNum(l) /\ Den(l) = 1 /\ PowOK(Num(l), Num(r)) THEN F(IntPow(Num(l), Num(r)), 1)
        ELSE SKIP
